@@ -25,6 +25,8 @@ type Config struct {
 	StreamBuf  int     `json:"stream_buf"`
 	SettleMS   int     `json:"settle_ms"`
 	Direct     bool    `json:"direct"` // clients call the ledger API directly instead of the notary API
+	StreamFaultKind string `json:"stream_fault,omitempty"`
+	K          int     `json:"k,omitempty"` // scenario class selector
 	OpSkip     []int   `json:"op_skip,omitempty"`  // scenario-generated operations to leave out (set by the minimiser)
 	OpLimit    int     `json:"op_limit,omitempty"` // stop after this many scenario-generated operations (0 = all)
 }
